@@ -104,6 +104,10 @@ Definition take_runnable (s : state) (n : nat) : state :=
   {| rem := rem s; runnable := remove1 n (runnable s); conc := conc s; asyn := asyn s; pc := pc s;
      started := started s; finished := finished s; skipped := skipped s |}.
 
+(* a future of kind k for node n is inspected and returned: n leaves the in-flight set and the graph *)
+Definition complete (k : kind) (s : state) (n : nat) : state :=
+  mark_finished (remove_node (set_inflight s k (remove1 n (inflight s k))) n) n.
+
 (* the for-loop over done_ of a wait helper (helpers.py:137-141 / 175-179).
    Result: the state after the inspected futures and, if one raised, its node. *)
 Fixpoint inspect (k : kind) (s : state) (dones : list (nat * bool)) : option (state * option nat) :=
@@ -111,7 +115,7 @@ Fixpoint inspect (k : kind) (s : state) (dones : list (nat * bool)) : option (st
   | [] => Some (s, None)
   | (n, true) :: ds =>
       if mem n (inflight s k)
-      then inspect k (mark_finished (remove_node (set_inflight s k (remove1 n (inflight s k))) n) n) ds
+      then inspect k (complete k s n) ds
       else None
   | (n, false) :: ds =>
       if mem n (inflight s k) then (match ds with [] => Some (s, Some n) | _ => None end) else None
